@@ -430,6 +430,16 @@ def main():
     a = sys.argv[1:]
     if a and a[0] == "--setup":
         return setup()
+    if a and a[0] == "--build":
+        with Lock():
+            for f in (build_coq, build_driver, build_harness):
+                ok, out = f()
+                if not ok:
+                    print(out[-8000:]); sys.exit(1)
+        hits = forbidden_tokens()
+        if hits:
+            print("forbidden tokens:", hits); sys.exit(1)
+        print("build ok"); return
     pid = a[0]
     tier = os.environ.get("VERIF_TIER", "quick")
     if "--tier" in a:
